@@ -44,7 +44,9 @@ func (t *XMPPTransport) Connect() (string, error) {
 	// A new TCP connection is never secure, whatever a previous connection of this
 	// transport negotiated.
 	t.isSecure = false
-	t.closeChan = make(chan stanza.StreamClosePacket)
+	// Buffered: the receiver must not block when the server closes the stream on its own
+	// initiative and nobody is waiting in Close yet.
+	t.closeChan = make(chan stanza.StreamClosePacket, 1)
 	t.readWriter = newStreamLogger(t.conn, t.logFile)
 	t.decoder = xml.NewDecoder(bufio.NewReaderSize(t.readWriter, maxPacketSize))
 	t.decoder.CharsetReader = t.Config.CharsetReader
@@ -160,5 +162,8 @@ func (t *XMPPTransport) LogTraffic(logFile io.Writer) {
 }
 
 func (t *XMPPTransport) ReceivedStreamClose() {
-	t.closeChan <- stanza.StreamClosePacket{}
+	select {
+	case t.closeChan <- stanza.StreamClosePacket{}:
+	default:
+	}
 }
